@@ -8,7 +8,7 @@ META = {
     "level": "proof",
     "technique": "contract-based deductive verification: the carriers of an error position on the real code - the lexer's line/column bookkeeping (match_reg), Node.__init__ / Node.exception_kwargs, pyparser._adjust_lineno (template line = construct line + offset + Python's line - 1, every other field as given) and the CompileException / SyntaxException constructors - each against its contract, VCs from their AST discharged by z3/cvc5",
     "level_text": "For all texts, positions and node fields: the line the lexer reports for a match is the line of the match start and the column its 1-based offset in that line; a parse-tree node hands on exactly its own source, line, column and filename; a Python syntax error is re-based onto the template line that holds the offending Python line and nothing else is changed; the exception objects carry those four values unchanged.",
-    "level_note": "Which position each of the ~60 raise sites passes (start of the construct vs. where the scan gave up) is not under contract: bounded fault-planting grid (25 fault classes x 6 prefixes x CRLF x indentation x 4 construction paths). Known finding: an unclosed tag is reported at the end of the text, not where the tag begins (pinned by test_lexer.test_unclosed_tag). Assumed: CPython's SyntaxError.lineno is the offending line of the embedded code.",
+    "level_note": "Errors raised while generating code carry the offending node's own position (postconditions on _check_name_exists, _Identifiers.visitBlockTag and write_namespaces.NSDefVisitor.visitDefOrBase); which position the other raise sites pass (start of the construct vs. where the scan gave up) is not under contract: bounded fault-planting grid (44 fault classes - one per raise site of a compile error - x 6 prefixes x CRLF x indentation x 4 construction paths). Known finding: an unclosed tag is reported at the end of the text, not where the tag begins (pinned by test_lexer.test_unclosed_tag). Assumed: CPython's SyntaxError.lineno is the offending line of the embedded code.",
 }
 
 
